@@ -20,6 +20,35 @@ CHECKS = {
              "library's poll/kill/waitpid/close calls (all alternatives at blocked calls, up to 2 scheduling deviations elsewhere) and, in the "
              "thorough tier, every single fault at poll/waitpid/kill: status equals the ending the harness caused, is never returned while the "
              "child ledger says running, is stable with zero further system calls, exactly one successful reap, no zombie."),
+    "C04": dict(
+        cat="model_checking", design="3/C04",
+        technique="stateless model checking of the real library: exhaustive single-fault (quick) / fault-pair (thorough) enumeration over every intercepted libc call on both sides of fork, under a controlled libc layer",
+        text="12 start scenarios (all redirect kinds, input, workdir+relative program, extra env, nonblocking, fork mode, forked side first or parent first) "
+             "x every answer of every fault menu at every libc call reproc_start makes in the parent and in the forked child, one at a time (quick) and "
+             "in pairs (thorough); 10 natural failures with the real exec (missing/non-executable/over-long program, bad working directory, unusable "
+             "redirect path, oversized input, name not in PATH), each also combined with every single fault. Oracle by outcome: either a negative result that "
+             "is the errno of a failing call, no child left, pid EINVAL, handle startable again - or success with positive ledger pid, the helper image "
+             "really running, stream identities right and a write/read/wait round trip."),
+    "C05": dict(
+        cat="model_checking", design="3/C05",
+        technique="stateless model checking of the real library: exhaustive single-fault (quick) / fault-pair (thorough) enumeration over every intercepted libc call on both sides of fork, under a controlled libc layer",
+        text="12 redirect/option scenarios x 7 API histories (destroy, wait, write/close/read-to-EOF, drain, terminate/wait/kill, kill/wait, run_ex) with "
+             "user-owned FILE/handles/std streams, x every fault (including close EINTR/EIO and every allocation) at every libc call of the whole history: "
+             "descriptor ledger empty and /proc/self/fd equal to the initial table, heap ledger empty, no foreign/double close or free (recorded and not "
+             "executed), user objects still open on the same inode, children reaped."),
+    "C06": dict(
+        cat="model_checking", design="3/C06",
+        technique="stateless model checking of the real library: exhaustive API histories x child-step schedules, plus single-fault enumeration during start, with a child ledger at the kill/waitpid boundary",
+        text="Every kill()/waitpid() the library issues is checked against the child ledger (positive pid returned by fork for this handle, not yet reaped); "
+             "calls that fail the rule are recorded and never reach the kernel. Space: every single start fault continued with terminate/wait/kill/"
+             "terminate/destroy and kill/wait (12 scenarios), and all histories up to depth 3/4 over wait/terminate/kill/stop with the child's end released "
+             "at every scheduling point (the C01 space), including stop sequences and terminate/kill after a successful wait."),
+    "C12": dict(
+        cat="model_checking", design="3/C12",
+        technique="stateless model checking of the real library: exhaustive single-fault (quick) / fault-pair (thorough) enumeration over every intercepted libc call on both sides of fork, under a controlled libc layer",
+        text="4 caller signal masks x 12 disposition tables x 12 scenarios with the real exec (child side: hello reports empty mask, nothing ignored or "
+             "caught) and the same scenarios under every single fault at every call of reproc_start (parent side: mask, 31 dispositions, cwd, environ "
+             "pointer+content identical before/after on every return path; a failure of the restoring call itself is exempt, as the property says)."),
 }
 
 NOT_YET = "check not built yet (work in progress; see DESIGN.md section 7 for the build order)"
